@@ -189,6 +189,7 @@ fn main() {
         ("Backoff", gen_backoff),
         ("Frame", gen_frame),
         ("Topic", gen_topic),
+        ("Server", gen_server),
     ];
     let mut failed = false;
     for (name, f) in steps {
@@ -556,5 +557,89 @@ fn gen_topic(repo: &Path, g: &mut Gen) -> R<()> {
     let _ = writeln!(s, "def compMin : Nat := {}\ndef compMax : Nat := {}\ndef compClass : List (Nat × Nat) := [{}]", cc.min, cc.max, ranges(&cc));
     let _ = writeln!(s, "/-- how `try_from` takes the part after the first byte: `true` = `value.get(1..)` (no panic), `false` = `value[1..]` -/\ndef checkedSlice : Bool := {}", if slicing == "get" { "true" } else { "false" });
     g.emit("Topic", &[rel, "regex-syntax (the parser and Unicode tables the regex crate uses)"], &s);
+    Ok(())
+}
+
+// ------------------------------------------------------------------------------------------ server
+
+/// does `block` (lexically) contain an awaited `.send(..)` call?
+fn has_awaited_send(stmts: &[syn::Stmt]) -> bool {
+    struct V(bool);
+    impl<'ast> syn::visit::Visit<'ast> for V {
+        fn visit_expr_await(&mut self, a: &'ast syn::ExprAwait) {
+            if let Expr::MethodCall(m) = &*a.base {
+                if m.method == "send" { self.0 = true; }
+            }
+            syn::visit::visit_expr_await(self, a);
+        }
+    }
+    let mut v = V(false);
+    for s in stmts { syn::visit::Visit::visit_stmt(&mut v, s); }
+    v.0
+}
+
+/// find the block in which the guard of `topics.lock()` is bound, and the statements after the binding
+fn lock_scope(block: &syn::Block) -> Option<Vec<syn::Stmt>> {
+    for (i, st) in block.stmts.iter().enumerate() {
+        if let syn::Stmt::Local(l) = st {
+            if let Some(init) = &l.init {
+                let e = &init.expr;
+                let toks = quote::quote!(#e).to_string();
+                if toks.starts_with("topics . lock ()") { return Some(block.stmts[i + 1..].to_vec()); }
+            }
+        }
+    }
+    // recurse into nested blocks
+    struct F(Option<Vec<syn::Stmt>>);
+    impl<'ast> syn::visit::Visit<'ast> for F {
+        fn visit_block(&mut self, b: &'ast syn::Block) {
+            if self.0.is_none() {
+                for (i, st) in b.stmts.iter().enumerate() {
+                    if let syn::Stmt::Local(l) = st {
+                        if let Some(init) = &l.init {
+                            let e = &init.expr;
+                            if quote::quote!(#e).to_string().starts_with("topics . lock ()") { self.0 = Some(b.stmts[i + 1..].to_vec()); return; }
+                        }
+                    }
+                }
+                syn::visit::visit_block(self, b);
+            }
+        }
+    }
+    let mut f = F(None);
+    for st in &block.stmts { syn::visit::Visit::visit_stmt(&mut f, st); }
+    f.0
+}
+
+fn gen_server(repo: &Path, g: &mut Gen) -> R<()> {
+    let ps_rel = "server/src/topic/pubsub.rs";
+    let rr_rel = "server/src/topic/reqrep.rs";
+    let sv_rel = "server/src/server.rs";
+    let codes_rel = "protocol/src/error_codes.rs";
+    let ps = Src::load(repo, ps_rel)?;
+    let rr = Src::load(repo, rr_rel)?;
+    let sv = Src::load(repo, sv_rel)?;
+    let codes = Src::load(repo, codes_rel)?;
+    let ps_size = ps.const_int("SOCK_CHANNEL_SIZE")?;
+    let rr_size = rr.const_int("SOCK_CHANNEL_SIZE")?;
+    // handle_stream: is an awaited send() inside the scope of the `topics.lock()` guard?
+    let hs = sv.ast.items.iter().find_map(|it| if let Item::Fn(f) = it { if f.sig.ident == "handle_stream" { Some(f) } else { None } } else { None })
+        .ok_or_else(|| Shape(format!("{sv_rel}: fn handle_stream not found")))?;
+    let scope = lock_scope(&hs.block).ok_or_else(|| Shape(format!("{sv_rel}: handle_stream no longer binds a `topics.lock()` guard in a let statement")))?;
+    let held = has_awaited_send(&scope);
+    let mut s = String::new();
+    let _ = writeln!(s, "/-- `SOCK_CHANNEL_SIZE` of the pub/sub and request/reply routers -/\ndef pubsubChannelSize : Nat := {ps_size}\ndef reqrepChannelSize : Nat := {rr_size}");
+    let _ = writeln!(s, "/-- does `handle_stream` await a channel `send` while the guard of the global `topics` lock is in scope? -/\ndef lockHeldAcrossSend : Bool := {}", held);
+    for name in ["INVALID_TOPIC_NAME", "REPLIER_ALREADY_BOUND", "STREAM_CLOSED_PREMATURELY", "UNKNOWN_ERROR"] {
+        let v = codes.const_int(name)?;
+        let lean = name.to_lowercase().split('_').enumerate().map(|(i, w)| if i == 0 { w.to_string() } else { let mut c = w.chars(); c.next().unwrap().to_uppercase().collect::<String>() + c.as_str() }).collect::<String>();
+        let _ = writeln!(s, "def {lean} : Nat := {v}");
+    }
+    // optional (added by a fix): the code for a registration of the wrong messaging pattern
+    let mismatch = codes.const_int("TOPIC_PATTERN_MISMATCH").ok();
+    let _ = writeln!(s, "/-- `TOPIC_PATTERN_MISMATCH`, if the source defines it -/\ndef topicPatternMismatch : Option Nat := {}", match mismatch { Some(v) => format!("some {v}"), None => "none".into() });
+    let body = { let b = &hs.block; quote::quote!(#b).to_string() };
+    let _ = writeln!(s, "/-- does `handle_stream` compare the topic's pattern with the registration before acknowledging? -/\ndef checksPattern : Bool := {}", body.contains("is_pubsub ()") && body.contains("TOPIC_PATTERN_MISMATCH"));
+    g.emit("Server", &[ps_rel, rr_rel, sv_rel, codes_rel], &s);
     Ok(())
 }
